@@ -60,18 +60,42 @@ META = {
             "render_named_str, add_template_owned+get_template, render_captured_to, render_captured, template_from_named_str, the "
             "Expression API followed by an emit), cases rotate through environment configurations (plain, html auto-escape "
             "callback, custom formatter, debug off, custom syntax; literal emissions run under each), and a second build with "
-            "feature preserve_order runs a quarter of the cases under the hoisting oracle.",
+            "feature preserve_order runs a quarter of the cases under the hoisting oracle. ADDED IN SESSION 4: (5) the "
+            "INSTRUCTION STREAM of compile_expr is a function `codeC` of the model for EVERY expression form, constant or not "
+            "(MJ/Model/FoldCode.lean: fold-first, children in evaluation order, the jumps of and/or with relative targets, "
+            "CompareAndPreserve chains with their cleanup tail, Not/Neg without any rewrite of the operand, conditional "
+            "expressions, compile_call_args with its BuildList/UnpackLists and BuildKwargs/MergeKwargs batches and argument "
+            "counts); a stack machine `run` executes it with the VM handlers, and compile_transparent proves for the whole "
+            "call-free expression language that running codeC e pushes exactly the value of the unfolded run-time semantics "
+            "and fails exactly when it fails (negated_ge_peephole_is_not_transparent: the seeded `not (a >= b)` -> `a; b; "
+            "Lte` rewrite is refuted in the same model). The check compares codeC with the REAL instruction stream "
+            "(instruction names, operands, relative jump targets, argument counts) of up to eight hoisting variants of "
+            "every expression case. (6) the operator x context MATRIX stream: 52 unary/binary/chain/test/filter/"
+            "container forms x 49 expression contexts (not, not not, -, - -, tests, conditional expressions with and "
+            "without else, and/or operands, ==/!=/in against booleans, filters, list/map/call arguments, identities "
+            "`~ \"\"`, `+ 0`, `* 1`) and 10 statement contexts (if/elif, set, for-if, with, macro defaults) x four operand "
+            "relations (equal incl. equal across kinds, less, greater, special: mixed kinds, members, identities, zero "
+            "divisors, undefined), every hoisting subset rendered. (7) the hoisting oracle compares the typed VALUE of every "
+            "hoisting variant (Expression API), not only its text. (8) operator CHAINS: three and four operands under every "
+            "pair of arithmetic, comparison and boolean operators, natural / left / right association, operand triples that "
+            "witness non-associativity and overflow (floats at 2^53, 1e308, signed zeros, integers at the 2^63, 2^64 and 2^127 "
+            "limits with neighbours of mixed sign, zero divisors, strings and sequences for + * ~, equal-across-kinds values "
+            "for comparison chains), every subset of operands hoisted; positions that are never executed (`true or #`, dead "
+            "branches, unused macros, empty loops) hold every form incl. failing constants.",
     "design_ref": "DESIGN.md §3 C04",
     "level_note": "Trusted: Lean kernel; hand transcription of as_const's traversal, compile_expr/compile_compare/compile_call_args "
                   "and the VM handlers into MJ/Model/Fold.lean and of compile_stmt's traversal into MJ/Model/FoldStmt.lean (the "
                   "operator tables, the folded variants, the constant sites and the statement-list loops are regenerated from the "
                   "source and proved equal to / covered by the model's; evaluation order and jump structure are validated by the "
-                  "differential streams). The theorems assume Prims.Lawful (no operation returns undefined, is_true(Bool b)=b, "
+                  "differential streams and, since session 4, by the instruction-stream correspondence: codeC against the real stream). "
+                  "compile_transparent covers the call-free language (Expr.Core); for filters, tests and calls the instruction "
+                  "stream incl. every argument count and batch is compared with the real one but `run` does not execute the call "
+                  "instructions (their value semantics is evalC's, proved transparent under hoisting). The theorems assume Prims.Lawful (no operation returns undefined, is_true(Bool b)=b, "
                   "contains returns a bool) - PROVED for the concrete Lean model of the value operations (concrete_prims_lawful) - "
                   "and Expr.WF, checked on the real parser's AST of every harness case. The concrete value operations "
                   "(MJ/Model/FoldPrims.lean: exact binary64 incl. shortest float text, python string repr, i128 arithmetic, Ord/==, "
                   "slices, MergeKwargs/UnpackLists, the harness' callees, the filters default/length/abs/first/last/min/max/sum/"
-                  "string/list/safe/upper(ASCII), a dozen tests) are validated by the value correspondence; what is not transcribed "
+                  "string/list/safe/upper(ASCII), the tests defined/none/odd/even/number/integer/float/string/eq/ne/lt/le/gt/ge/in/divisibleby/true/false) are validated by the value correspondence; what is not transcribed "
                   "(inexact powf, NaN ordering, the filters join/sort/unique/batch/slice/reverse/map/select/reject/items/dictsort/"
                   "tojson/int/round, `is sequence`) is reported unmodelled (<5% of the expression cases) and covered by the hoisting "
                   "oracle alone. Statement level: proved are the compile-time effects (block table, macro declarations) and the "
@@ -105,9 +129,28 @@ def variant_codes(c):
     out = []
     for ent in c["codes"].split(";"):
         p = ent.split("|")
-        if len(p) == 3:
-            out.append((p[0], p[1], p[2]))
+        if len(p) == 4:
+            out.append((p[0], p[1], p[2], p[3]))
     return out
+
+
+def vsrc(c, mask):
+    """source of a hoisting variant (spans of the key, bit i of the hex mask = span i replaced by v<i>)"""
+    try:
+        f = c["key"].split()
+        src = bytes.fromhex(f[1])
+        spans = [] if f[2] == "-" else [tuple(int(x) for x in sp.split("-")) for sp in f[2].split(",")]
+        m = int(mask, 16)
+        out, pos = b"", 0
+        for i, (a, b) in enumerate(spans):
+            if a < pos:
+                continue
+            if m >> i & 1:
+                out += src[pos:a] + b"v%d" % i
+                pos = b
+        return (out + src[pos:]).decode()
+    except Exception:
+        return "?"
 
 
 def root_of(ast):
@@ -167,7 +210,8 @@ def src_of(key):
 
 
 def run(r):
-    r.rule = ("hand-written seeds (and/or on falsy operands, negated boundary literals, constant division by zero, `in`, `~`, "
+    r.rule = ("operator x context matrix (every form under every unary/boolean/test/conditional/call/statement context at "
+              "equal / less / greater / special operands; 1 round quick, 4 thorough) plus operator chains of three and four operands (every pair of arithmetic / comparison / boolean operators x natural, left and right association x non-associativity witnesses: floats at 2^53 and 1e308, signed zeros, integers at the 2^63 / 2^64 / 2^127 limits with neighbours of mixed sign, zero divisors, strings and sequences) plus hand-written seeds (and/or on falsy operands, negated boundary literals, constant division by zero, `in`, `~`, "
               "comparison chains, map literals with repeated/colliding keys, floats and their text, escaped strings, keyword "
               "arguments, splats, method/object calls, item/attribute access, slices, if-expressions, filters, tests, undefined) "
               "plus random expressions over the grammar (depth 1..5, every 16th case 6..8, <=48 literal leaves) plus the size-class "
@@ -261,6 +305,15 @@ def process(r, out, build, with_model):
             r.hist["container size class"][size] += 1
             r.hist["equality class of items"][klass] += 1
             r.hist["sized form"][("stmt " if form[0] == "s" else "expr ") + form[1:]] += 1
+        if c["tag"].startswith("mx:"):
+            _, ctx, form, rel = c["tag"].split(":")
+            r.hist["matrix context"][("stmt " if ctx[0] == "s" else "expr ") + ctx[1:]] += 1
+            r.hist["matrix form"][form] += 1
+            r.hist["matrix operand relation"][rel] += 1
+        if c["tag"].startswith("ch:"):
+            _, ops, shape, fam = c["tag"].split(":")
+            r.hist["chain operators"][ops] += 1
+            r.hist["chain shape"][["natural", "left", "right", "", "four operands"][int(shape)]] += 1
         where = ("stmt:" + stmt_head(src_of(key))) if stmt else root_of(ast)
         # ---- oracle: the property on the implementation's own results
         if c["load"] != "ok":
@@ -278,6 +331,9 @@ def process(r, out, build, with_model):
                 what_obs = ["rendering", "block names"][j] if j < 2 else lit_part.split("=")[0]
                 r.oracle_failure(key, f"`{src_of(key)}`: {what_obs} differs: all-literal variant {lit_part}, variant with leaves mask {mask} hoisted {other_part}",
                                  classify(lit_part.split("=", 1)[-1], other_part.split("=", 1)[-1]) + ":" + where + ":" + what_obs.split(".")[0])
+            elif mask.endswith("through value"):
+                r.oracle_failure(key, f"`{src_of(key)}`: value of the all-literal variant {c['vallit']}, of the variant with leaves mask {mask.split()[0]} hoisted {other}",
+                                 "hoist-changes-value:" + where)
             else:
                 r.oracle_failure(key, f"`{src_of(key)}`: all-literal variant gives {c['lit']}, variant with leaves mask {mask} hoisted gives {other}",
                                  classify(c["lit"], other) + ":" + where)
@@ -344,14 +400,22 @@ def process(r, out, build, with_model):
             r.model_disagreement(key, "all-hoisted eval " + c["valhoist"], "evalRt " + d["rt"])
         # the constants of the real instruction stream of the dumped hoisting variants are the model's `constsC`
         # (a folded node is one constant = the folder's value; nothing else is precomputed)
-        for j, (mask, vast, consts) in enumerate(variant_codes(c)):
+        for j, (mask, vast, consts, ops) in enumerate(variant_codes(c)):
             ml = model_lines[slots[i] + 1 + j]
-            r.hist["model"]["instruction-stream constants compared"] += 1
+            r.hist["model"]["instruction streams compared"] += 1
             if ml == "bad-case":
                 r.broken.append(f"model driver could not parse the AST of variant {mask} of {src_of(key)}")
-            elif ml != "consts=" + consts:
+                continue
+            mconsts, _, mops = ml.partition("\tops=")
+            if mconsts != "consts=" + consts:
                 r.model_disagreement(key, f"variant with leaves mask {mask} hoisted: LoadConst values in the instruction stream: {consts}",
-                                     "constsC: " + ml[7:])
+                                     "constsC: " + mconsts[7:])
+            # the whole stream: every instruction, its operand, every (relative) jump target, every argument count
+            if mops != ops:
+                r.model_disagreement(key, f"variant with leaves mask {mask} hoisted (`{c['key'] and vsrc(c, mask)}`): instruction stream: {ops}",
+                                     "codeC: " + mops)
+            for o in ops.split():
+                r.hist["instruction"][o.split(":")[0]] += 1
         if i % max(1, len(cases) // 10) == 0:
             r.sample({"src": src_of(key), "mode": key.split()[0], "leaves": k, "variants": nvar, "outcome": c["lit"][:60],
                       "as_const": fold_impl[:60], "model": d["fold"][:60]})
